@@ -17,6 +17,11 @@ IntStr(i)        == ""                \* overridden: decimal digits of a TLC int
 FmtParse(s)      == <<>>              \* overridden: string.format directive parser: seq of <<kind, text>>,
                                       \*   kind in {"lit","s","d","bad"}
 StrHasPrefix(s, p) == FALSE           \* overridden
+\* first index i with q[i] = x, 0 if none. This body IS the definition; the Java override only makes
+\* it fast (table lookups are the hot path of LuaSem).
+RECURSIVE SeqIndexFrom(_, _, _)
+SeqIndexFrom(q, x, i) == IF i > Len(q) THEN 0 ELSE IF q[i] = x THEN i ELSE SeqIndexFrom(q, x, i + 1)
+SeqIndexOf(q, x)  == SeqIndexFrom(q, x, 1)   \* overridden
 JsonOf(v)        == ""                \* overridden: compact JSON text of records / sequences / strings / ints / booleans
                                       \*   (bytes outside 0x20..0x7e and the characters " \ are written \u00XX)
 EmitLine(s)      == TRUE              \* overridden: prints the string s as one raw line on stdout; TRUE
